@@ -10,7 +10,7 @@ use std::ops::Range;
 use wasmparser::{Parser, Payload};
 type JValue = serde_json::Value;
 
-struct Layout {
+pub struct Layout {
     code_start: usize,
     /// export name -> entry range (size prefix included) and body range, code-relative
     entries: BTreeMap<String, (Range<u64>, Range<u64>)>,
@@ -21,7 +21,7 @@ struct Layout {
 
 fn opname(op: &wasmparser::Operator) -> String { let s = format!("{:?}", op); s.split(|c: char| c == ' ' || c == '{' || c == '(').next().unwrap_or("").to_string() }
 
-fn layout(wasm: &[u8]) -> Result<Layout> {
+pub fn layout(wasm: &[u8]) -> Result<Layout> {
     let mut code_start = 0;
     let mut n_imports = 0u32;
     let mut entries = vec![];
@@ -61,7 +61,7 @@ fn append_custom(wasm: &mut Vec<u8>, name: &str, data: &[u8]) {
 }
 
 /// -> (wasm with DWARF, line -> (function, operator name))
-fn attach(mut wasm: Vec<u8>, l: &Layout, version: u16, spanning: bool, lowpc_at_entry: bool) -> Result<(Vec<u8>, BTreeMap<u64, (String, String)>)> {
+pub fn attach(mut wasm: Vec<u8>, l: &Layout, version: u16, spanning: bool, lowpc_at_entry: bool) -> Result<(Vec<u8>, BTreeMap<u64, (String, String)>)> {
     let encoding = Encoding { format: Format::Dwarf32, version, address_size: 4 };
     let mut dwarf = DwarfUnit::new(encoding);
     let comp_dir = LineString::String(b"/src".to_vec());
